@@ -13,6 +13,7 @@ Definition safeU (b id : N) (a : act) : Prop :=
   | RmIndex b' => b' <> b
   | MvToTrash b' => b' <> b
   | Tomb b' id' true => b' <> b \/ id' <> id
+  | TombOrRm b' _ _ => b' <> b
   | _ => True
   end.
 
@@ -28,12 +29,16 @@ Qed.
 Lemma present_step : forall now b id a x, safeU b id a -> present b id x -> present b id (apply now x a).
 Proof.
   intros now b id a x Hs [g [Hin [Hb He]]].
-  destruct a as [b'|b'|b' id' flag|b'|b'|b'|b'|]; simpl in *.
+  destruct a as [b'|b'|b' id' flag|b' id' totr|b'|b'|b'|b'|]; simpl in *.
   - exists g. repeat split; auto. eapply rm_keeps; eauto.
   - exists g. auto.
   - exists (if N.eqb (f_base g) b' then set_flag id' flag g else g). split.
     + unfold on_file. apply in_map_iff. exists g. auto.
     + destruct (N.eqb (f_base g) b'); [|auto]. split; [exact Hb|]. apply set_flag_entries. exact He.
+  - destruct (serves_others b' id' (d_index x)); simpl.
+    + exists g. split; [|auto]. unfold on_file. apply in_map_iff. exists g. split; [|exact Hin].
+      destruct (N.eqb (f_base g) b') eqn:E; [apply N.eqb_eq in E; congruence|reflexivity].
+    + exists g. repeat split; auto. eapply rm_keeps; eauto.
   - exists (if N.eqb (f_base g) b' then touch now g else g). split.
     + unfold on_file. apply in_map_iff. exists g. auto.
     + destruct (N.eqb (f_base g) b'); auto.
@@ -62,7 +67,7 @@ Qed.
 Lemma alive_step : forall now b id a x, safeU b id a -> alive_at b id x -> alive_at b id (apply now x a).
 Proof.
   intros now b id a x Hs [g [Hin [Hb Ha]]].
-  destruct a as [b'|b'|b' id' flag|b'|b'|b'|b'|]; simpl in *.
+  destruct a as [b'|b'|b' id' flag|b' id' totr|b'|b'|b'|b'|]; simpl in *.
   - exists g. repeat split; auto. eapply rm_keeps; eauto.
   - exists g. auto.
   - exists (if N.eqb (f_base g) b' then set_flag id' flag g else g). split.
@@ -70,6 +75,10 @@ Proof.
     + destruct (N.eqb (f_base g) b') eqn:E; [|auto]. split; [exact Hb|].
       apply has_alive_set_flag_keep; [exact Ha|]. intros ->. apply N.eqb_eq in E.
       destruct Hs as [Hs|Hs]; [congruence|exact Hs].
+  - destruct (serves_others b' id' (d_index x)); simpl.
+    + exists g. split; [|auto]. unfold on_file. apply in_map_iff. exists g. split; [|exact Hin].
+      destruct (N.eqb (f_base g) b') eqn:E; [apply N.eqb_eq in E; congruence|reflexivity].
+    + exists g. repeat split; auto. eapply rm_keeps; eauto.
   - exists (if N.eqb (f_base g) b' then touch now g else g). split.
     + unfold on_file. apply in_map_iff. exists g. auto.
     + destruct (N.eqb (f_base g) b'); auto.
@@ -208,8 +217,9 @@ Section Revive.
         destruct (consistent (group (ix d) i)); [contradiction|].
         apply in_app_or in Ha. destruct Ha as [Ha|Ha]; apply in_map_iff in Ha; destruct Ha as [s [<- Hs]]; simpl.
         * right. apply Hneq. exact Hi.
-        * intros Hsb. apply filter_In in Hs. destruct Hs as [Hs Hk].
-          rewrite (Hcomp s i Hs Hsb) in Hk. discriminate.
+        * apply filter_In in Hs. destruct Hs as [Hs Hk]. simpl in Hk.
+          destruct (s_compound s) eqn:K; [discriminate|]. simpl.
+          intros Hsb. rewrite (Hcomp s i Hs Hsb) in K. discriminate.
       + apply Forall_forall. intros a Ha. unfold plan4 in Ha. apply in_flat_map in Ha. destruct Ha as [i [_ Ha]].
         destruct (memN i (trash_keys d now)) eqn:TK.
         * apply in_flat_map in Ha. destruct Ha as [s [Hs Ha]].
@@ -232,11 +242,12 @@ Section Revive.
         * apply in_app_or in Ha. destruct Ha as [Ha|Ha].
           -- apply in_map_iff in Ha. destruct Ha as [s [<- _]]. simpl. right. apply Hneq. exact Hi'.
           -- apply in_flat_map in Ha. destruct Ha as [s [Hs Ha]].
-             apply filter_In in Hs. destruct Hs as [Hs Hk].
+             apply filter_In in Hs. destruct Hs as [Hs Hk]. simpl in Hk.
+             destruct (s_compound s) eqn:K; [discriminate|].
              assert (Hsb : s_base s <> b).
-             { intros Hsb. rewrite (Hcomp s i Hs Hsb) in Hk. discriminate. }
-             unfold move_to in Ha. simpl in Ha. destruct Ha as [<-|Ha]; [exact I|].
-             destruct (s_compound s); simpl in Ha; destruct Ha as [<-|[]]; exact Hsb.
+             { intros Hsb. rewrite (Hcomp s i Hs Hsb) in K. discriminate. }
+             unfold move_to in Ha. rewrite K in Ha. simpl in Ha.
+             destruct Ha as [<-|[<-|[]]]; [exact I|exact Hsb].
       + constructor; [exact I|constructor].
     - left. split.
       + exists g. repeat split; auto.
@@ -246,3 +257,28 @@ Section Revive.
         rewrite id_in_tomb_keys, Hp. left. reflexivity.
   Qed.
 End Revive.
+
+(** shardMerging = false: the rename purge removes a compound shard in which nothing but the renamed repository is
+    alive; an assigned repository tombstoned in it (3) is then not revived from it (it was not searchable before) *)
+Definition ex_dir3 : dir :=
+  mkD [mkF 0 true (-3600) [mkE 1 1 false 1000; mkE 3 3 true 1000];
+       mkF 1 false (-3600) [mkE 1 11 false 1000]] [] 0.
+
+Theorem assigned_untombstoned_no_merging_refuted :
+  exists d repos now id,
+    wf d /\ In id repos /\ ~ In id (ids_of (ix d)) /\ ~ In id (trash_keys d now) /\ In id (tomb_ids (d_index d)) /\
+    d_index (cleanup d repos now false) = [] /\
+    (exists b, alive_at b id (cleanup d repos now true)).
+Proof.
+  exists ex_dir3, [1%N; 3%N], 0, 3%N.
+  split.
+  { constructor; simpl.
+    - constructor; [intros [H|[]]; discriminate|constructor; [intros []|constructor]].
+    - intros f e e' [<-|[<-|[]]] C; try discriminate. simpl. intros [<-|[]] [<-|[]]. reflexivity.
+    - intros t f e []. }
+  split; [simpl; auto|]. split; [vm_compute; intros [H|[]]; discriminate|]. split; [vm_compute; intros []|].
+  split; [vm_compute; auto|]. split; [reflexivity|].
+  exists 0%N, (mkF 0 true (-3600) [mkE 1 1 true 1000; mkE 3 3 false 1000]).
+  split; [vm_compute; left; reflexivity|]. split; [reflexivity|].
+  exists (mkE 3 3 false 1000). split; [vm_compute; left; reflexivity|reflexivity].
+Qed.
